@@ -461,8 +461,66 @@ Fixpoint m_run (cc : fmt -> list lazy -> option lazy) (F : fmt) (hdr : list Z) (
   | o :: p' => let '(regs', x) := m_step cc F hdr regs o in x :: m_run cc F hdr regs' p'
   end.
 
-(* the variant that models /repo as it is now: one-line switch once notes/C05.fix-1.diff is applied *)
+(* ---------------------------------------------------------------- Round 6: the code after notes/C05.fix-4/5/6.diff
+   `l_write`, `t_concat`, `m_step` above are now PINNED history (the code before these repairs); the current code is:
+   fix-4 (dump_csv.get_column formats a numeric encoding held as a plain RaggedArray): get_buffer formats EVERY replaced
+         column, `f_nowrite` is no longer consulted — the write of a lazy table cannot fail;
+   fix-5 (__array_function__ without the assert on `types`): np.concatenate of lazy and materialised operands takes the
+         data object of every lazy operand (get_data_object: all fields read in order) and the materialised ones as they
+         are; the result is a materialised table. *)
+Definition l_write6 (F : fmt) (hdr : list Z) (l : lazy) : list Z :=
+  match l_buf l with [] => hdr | _ =>          (* NpBufferedWriter.write: `if len(data) == 0: return` after the header *)
+  hdr ++
+    match l_set l with
+    | [] => concat (map r_raw (l_buf l))
+    | _ => concat (map (join_fields (f_layout F))
+                       (rows_of_cols [] (length (l_buf l)) (map (text_col F l) (all_fields F))))
+    end
+  end.
+(* get_data_object of one operand of the fall-back: a materialised operand is taken as it is *)
+Definition t_fill_ok (F : fmt) (t : table) : bool :=
+  match t with TLazy l => fst (l_fill F (all_fields F) l) | TEager _ => true end.
+Definition t_rows (F : fmt) (t : table) : rows :=
+  match t with TLazy l => l_rows F l | TEager r => r end.
+(* __array_function__ after fix-5: every operand lazy AND the buffer class has `concatenate` -> stays lazy;
+   otherwise (no `concatenate`, or some operand already materialised) the data objects are concatenated *)
+Definition t_concat6 (cc : fmt -> list lazy -> option lazy) (F : fmt) (ts : list table) : option table :=
+  match ts with
+  | [] => None
+  | _ =>
+    match all_lazy ts with
+    | Some ls => if f_concat F then option_map TLazy (cc F ls)
+                 else if forallb (fun l => fst (l_fill F (all_fields F) l)) ls
+                      then Some (TEager (concat (map (l_rows F) ls))) else None
+    | None => if forallb (t_fill_ok F) ts then Some (TEager (concat (map (t_rows F) ts))) else None
+    end
+  end.
+Definition m_step6 (cc : fmt -> list lazy -> option lazy) (F : fmt) (hdr : list Z)
+           (regs : list table) (o : op) : list table * obs :=
+  match o with
+  | OCat r srcs =>
+      match nth_error regs r, get_regs regs srcs with
+      | Some _, Some ts => match t_concat6 cc F ts with
+                           | Some t => (set_reg r t regs, XOk)
+                           | None => (regs, XErr) end
+      | _, _ => (regs, XErr) end
+  | OWrite r =>
+      match nth_error regs r with
+      | Some (TLazy l) => (regs, XBytes (l_write6 F hdr l))
+      | Some (TEager t) => (regs, if f_write_needs_context F then XErr else XBytes (s_write F hdr t))
+      | None => (regs, XErr) end
+  | _ => m_step cc F hdr regs o
+  end.
+Fixpoint m_run6 (cc : fmt -> list lazy -> option lazy) (F : fmt) (hdr : list Z) (regs : list table) (p : list op) : list obs :=
+  match p with
+  | [] => []
+  | o :: p' => let '(regs', x) := m_step6 cc F hdr regs o in x :: m_run6 cc F hdr regs' p'
+  end.
+
+(* the variant that models /repo as it is now *)
 Definition l_concat_cur := l_concat.
+Definition m_run_cur := m_run6 l_concat.
+Definition t_concat_cur := t_concat6 l_concat.
 
 (* ---------------------------------------------------------------- guards used by the theorems *)
 Definition subset (a b : list nat) : bool := forallb (fun x => existsb (Nat.eqb x) b) a.
@@ -535,6 +593,29 @@ Fixpoint m_guard_fixed_run (cc : fmt -> list lazy -> option lazy) (F : fmt) (hdr
   | o :: p' => m_guard_fixed F regs o && m_guard_fixed_run cc F hdr (fst (m_step cc F hdr regs o)) p'
   end.
 
+(* Round 6 guard: what is left after fix-4/5 — concatenate no longer needs unmixed operands (only that no operand's
+   parser raises), a write of a lazy table needs nothing (no `f_nowrite`, and join_ok is a theorem: Proofs join_ok_true) *)
+Definition m_guard6 (F : fmt) (regs : list table) (o : op) : bool :=
+  match o with
+  | OCat r srcs =>
+      match get_regs regs srcs with
+      | Some ts => match all_lazy ts with
+                   | Some ls => if f_concat F then negb (concat_parse_fails F ls)
+                                else forallb (fun l => fst (l_fill F (all_fields F) l)) ls
+                   | None => forallb (t_fill_ok F) ts end
+      | None => true end
+  | OWrite r =>
+      match nth_error regs r with
+      | Some (TEager _) => negb (f_write_needs_context F)
+      | _ => true end
+  | _ => m_guard F regs o
+  end.
+Fixpoint m_guard6_run (cc : fmt -> list lazy -> option lazy) (F : fmt) (hdr : list Z) (regs : list table) (p : list op) : bool :=
+  match p with
+  | [] => true
+  | o :: p' => m_guard6 F regs o && m_guard6_run cc F hdr (fst (m_step6 cc F hdr regs o)) p'
+  end.
+
 (* a record is canonically spelled when every field text is what the writer prints for its value and
    the record's bytes are the layout of those texts *)
 Fixpoint cells_canon (ks : list kind) (cells : list (list Z)) : bool :=
@@ -582,6 +663,141 @@ Fixpoint e_run (F : fmt) (hdr : list Z) (regs : list etable) (p : list op) : lis
 Definition eager_guard (F : fmt) (hdr : list Z) : bool :=
   negb (f_write_needs_context F) && match hdr, f_default_hdr F with [], [] => true | _, _ => false end.
 
+(* Round 6 (notes/C05.fix-6.diff: VCFBuffer types the info column as text unless the header has ##INFO lines, and writes
+   an info column parsed from ##INFO lines back as the text it was read from): the eager writer no longer refuses a table
+   read from a file with header lines — `f_eager_write_fails` is not consulted any more; e_write/e_step/e_run above are
+   PINNED history. *)
+Definition e_write6 (F : fmt) (hdr : list Z) (t : etable) : obs :=
+  let h := if snd t then hdr else f_default_hdr F in
+  if f_write_needs_context F && negb (snd t) then XErr else XBytes (s_write F h (fst t)).
+Definition e_step6 (F : fmt) (hdr : list Z) (regs : list etable) (o : op) : list etable * obs :=
+  match o with
+  | OWrite r => match nth_error regs r with Some t => (regs, e_write6 F hdr t) | None => (regs, XErr) end
+  | _ => e_step F hdr regs o
+  end.
+Fixpoint e_run6 (F : fmt) (hdr : list Z) (regs : list etable) (p : list op) : list obs :=
+  match p with
+  | [] => []
+  | o :: p' => let '(regs', x) := e_step6 F hdr regs o in x :: e_run6 F hdr regs' p'
+  end.
+Definition e_run_cur := e_run6.
+(* the eager implementation is the Spec at a write step exactly when the table still has its header context (the table
+   returned by read()), or there is no header to lose (what remains is C05-header-lost-on-derived-eager-table) *)
+Definition e_guard6 (F : fmt) (hdr : list Z) (regs : list etable) (o : op) : bool :=
+  match o with
+  | OWrite r =>
+      match nth_error regs r with
+      | Some t => snd t || (negb (f_write_needs_context F) && match hdr, f_default_hdr F with [], [] => true | _, _ => false end)
+      | None => true end
+  | OWriteRead r =>
+      match nth_error regs r with
+      | Some t => snd t || negb (f_write_needs_context F)
+      | None => true end
+  | _ => true
+  end.
+Fixpoint e_guard6_run (F : fmt) (hdr : list Z) (regs : list etable) (p : list op) : bool :=
+  match p with
+  | [] => true
+  | o :: p' => e_guard6 F hdr regs o && e_guard6_run F hdr (fst (e_step6 F hdr regs o)) p'
+  end.
+
+(* ---------------------------------------------------------------- Round 6, part 2: the program language extended
+   xop = the ten operations above, plus
+     XSortBy r f : r := r.sort_by(<field f>)   (BNPDataClass.sort_by, inherited by the lazy class:
+                   key = getattr(self, name)  — on a lazy table __getattr__, which CACHES the parsed column —,
+                   text keys compared as bytes (as_string_array(...).raw()), then self[np.argsort(key, kind='stable')]:
+                   __getitem__ with an integer list, so all three stores are indexed, the freshly cached key included).
+   The order on values is the one np.argsort uses on the key arrays: integers numerically, texts bytewise
+   (a proper prefix first).  argsort is a STABLE insertion sort of (key, position) pairs. *)
+Fixpoint lex_leb (a b : list Z) : bool :=
+  match a, b with
+  | [], _ => true
+  | _ :: _, [] => false
+  | x :: a', y :: b' => if x <? y then true else if y <? x then false else lex_leb a' b'
+  end.
+Definition value_leb (a b : value) : bool :=
+  match a, b with
+  | VI x, VI y => x <=? y
+  | VS x, VS y => lex_leb x y
+  | VI _, VS _ => true
+  | VS _, VI _ => false
+  end.
+(* insert p (whose position is smaller than every position in l) in front of the first entry that is not smaller *)
+Fixpoint ins_key (p : value * nat) (l : list (value * nat)) : list (value * nat) :=
+  match l with
+  | [] => [p]
+  | q :: r => if value_leb (fst p) (fst q) then p :: q :: r else q :: ins_key p r
+  end.
+Definition argsort (col : list value) : list nat :=
+  map snd (fold_right ins_key [] (combine col (seq 0 (length col)))).
+
+Inductive xop := XB (o : op) | XSortBy (r f : nat).
+
+Definition s_xstep (F : fmt) (hdr : list Z) (regs : list rows) (o : xop) : list rows * obs :=
+  match o with
+  | XB o => s_step F hdr regs o
+  | XSortBy r f => match nth_error regs r with
+                   | Some t => (set_reg r (s_index (argsort (s_get f t)) t) regs, XOk)
+                   | None => (regs, XErr) end
+  end.
+Fixpoint s_xrun (F : fmt) (hdr : list Z) (regs : list rows) (p : list xop) : list obs :=
+  match p with
+  | [] => []
+  | o :: p' => let '(regs', x) := s_xstep F hdr regs o in x :: s_xrun F hdr regs' p'
+  end.
+
+Definition m_xstep (cc : fmt -> list lazy -> option lazy) (F : fmt) (hdr : list Z)
+           (regs : list table) (o : xop) : list table * obs :=
+  match o with
+  | XB o => m_step6 cc F hdr regs o
+  | XSortBy r f =>
+      match nth_error regs r with
+      | Some (TLazy l) => match l_get F f l with
+                          | Some (c, l') => (set_reg r (TLazy (l_index (argsort c) l')) regs, XOk)
+                          | None => (regs, XErr) end
+      | Some (TEager t) => (set_reg r (TEager (s_index (argsort (s_get f t)) t)) regs, XOk)
+      | None => (regs, XErr) end
+  end.
+Fixpoint m_xrun (cc : fmt -> list lazy -> option lazy) (F : fmt) (hdr : list Z) (regs : list table) (p : list xop) : list obs :=
+  match p with
+  | [] => []
+  | o :: p' => let '(regs', x) := m_xstep cc F hdr regs o in x :: m_xrun cc F hdr regs' p'
+  end.
+Definition m_xguard (F : fmt) (regs : list table) (o : xop) : bool :=
+  match o with
+  | XB o => m_guard6 F regs o
+  | XSortBy r f => (f <? nfields F)%nat && m_guard F regs (OGet r f)     (* an existing field whose parser does not raise *)
+  end.
+Fixpoint m_xguard_run (cc : fmt -> list lazy -> option lazy) (F : fmt) (hdr : list Z) (regs : list table) (p : list xop) : bool :=
+  match p with
+  | [] => true
+  | o :: p' => m_xguard F regs o && m_xguard_run cc F hdr (fst (m_xstep cc F hdr regs o)) p'
+  end.
+
+(* the eager implementation: the Spec's step; the sorted table is a derived one (no header context) *)
+Definition e_xstep (F : fmt) (hdr : list Z) (regs : list etable) (o : xop) : list etable * obs :=
+  match o with
+  | XB o => e_step6 F hdr regs o
+  | XSortBy r f => match nth_error regs r with
+                   | Some t => (set_reg r (s_index (argsort (s_get f (fst t))) (fst t), false) regs, XOk)
+                   | None => (regs, XErr) end
+  end.
+Fixpoint e_xrun (F : fmt) (hdr : list Z) (regs : list etable) (p : list xop) : list obs :=
+  match p with
+  | [] => []
+  | o :: p' => let '(regs', x) := e_xstep F hdr regs o in x :: e_xrun F hdr regs' p'
+  end.
+Definition e_xguard (F : fmt) (hdr : list Z) (regs : list etable) (o : xop) : bool :=
+  match o with XB o => e_guard6 F hdr regs o | XSortBy _ _ => true end.
+Fixpoint e_xguard_run (F : fmt) (hdr : list Z) (regs : list etable) (p : list xop) : bool :=
+  match p with
+  | [] => true
+  | o :: p' => e_xguard F hdr regs o && e_xguard_run F hdr (fst (e_xstep F hdr regs o)) p'
+  end.
+
+Definition m_xrun_cur := m_xrun l_concat.
+Definition e_xrun_cur := e_xrun.
+
 (* ---------------------------------------------------------------- decision rules, named
    Bridge/C05.v proves (a) that the rules regenerated from /repo on every run (Gen/C05.v, translate/gen_c05.py) are
    these, and (b) that the functions above follow them.  Codes for "where a column comes from":
@@ -598,8 +814,9 @@ Definition m_replace_into_overlay : bool := true.
 Definition m_replace_new_overrides_old : bool := true.
 Definition m_replace_keeps_cache : bool := false.
 Definition m_data_object_reads_all_fields_in_order : bool := true.
-Definition m_concat_stays_lazy (has_concat : bool) : bool := has_concat.
-Definition m_concat_requires_all_lazy : bool := true.
+Definition m_concat_stays_lazy (all_operands_lazy has_concat : bool) : bool := all_operands_lazy && has_concat.
+Definition m_concat_requires_all_lazy : bool := false.          (* fix-5: no assert on `types` any more *)
+Definition m_concat_fallback_materialises_lazy_only : bool := true.
 Definition m_concat_column_source (in_set in_cache : bool) : Z := if in_set then 0 else if in_cache then 2 else 1.
 Definition m_concat_set_key (some_operand_replaced : bool) : bool := some_operand_replaced.
 Definition m_concat_cache_key (some_operand_replaced every_operand_cached : bool) : bool :=
@@ -613,3 +830,8 @@ Definition m_write_column_source (in_set : bool) : Z := if in_set then 0 else 1.
 Definition m_write_columns_in_field_order : bool := true.
 Definition m_should_be_lazy (config_lazy arg_none arg_false has_getter has_dataclass is_gtf : bool) : bool :=
   if (negb config_lazy && arg_none) || arg_false then false else (has_getter && has_dataclass) && negb is_gtf.
+(* BNPDataClass.sort_by, not overridden by the lazy class *)
+Definition m_sort_by_key_through_getattr : bool := true.
+Definition m_sort_by_text_key_bytewise : bool := true.
+Definition m_sort_by_stable : bool := true.
+Definition m_sort_by_indexes_self : bool := true.
